@@ -146,7 +146,7 @@ func EmitCases(prog *Prog, methods []*DriverMethod) string {
 			fmt.Fprintf(&sb, "\t%q\n", k.Path)
 		}
 	}
-	sb.WriteString(")\n\nvar (\n\t_ ext.MyInt\n\t_ odd.OInt\n\t_ lib.LibInt\n\t_ am.AInt\n\t_ bm.BInt\n\t_ oh.Rec\n\t_ = hooks.Finalize\n\t_ = hooksv2.Finalize\n\t_ e.Code\n\t_ = tr.Reset\n\t_ unsafe.Pointer\n)\n\n")
+	sb.WriteString(")\n\nvar (\n\t_ ext.MyInt\n\t_ odd.OInt\n\t_ lib.LibInt\n\t_ am.AInt\n\t_ bm.BInt\n\t_ oh.Rec\n\t_ = hooks.Finalize\n\t_ = hooksv2.Finalize\n\t_ e.Code\n\t_ audit.Stamp\n\t_ = tr.Reset\n\t_ unsafe.Pointer\n)\n\n")
 	retVars := reRetVar.FindAllStringSubmatch(prog.HomeFuncs+"\n"+prog.SetupFuncs, -1)
 	for _, dm := range methods {
 		emitMethod(&sb, prog, dm, retVars)
